@@ -40,7 +40,8 @@ MAJORS = [0, 1, 2, 3, 10]
 MINORS = [0, 1, 2, 3, 4, 5, 6, 9, 10]
 PATCHES = [0, 1, 2, 17]
 BUILDS = [0, 1]
-GARBAGE = ["garbage", "", "1..2", "abc.def", "v2.2", ".", "2.", "..", "-1.4", "2,2", "two.two"]
+GARBAGE = ["garbage", "", "1..2", "abc.def", "v2.2", ".", "2.", "..", "-1.4", "2,2", "two.two", "1" * 5000,
+           "2." + "9" * 4400, "x" * 5000]
 
 
 def grid():
